@@ -16,6 +16,9 @@ VERIF = os.path.dirname(os.path.dirname(os.path.abspath(__file__)))
 PY = '/venv/bin/python'
 LANES = 16
 HASHSEEDS = ['0', '1', '2', '3']
+_shift = int(os.environ.get('FSIM_HASHSEED_SHIFT', '0') or 0)
+if _shift:   # determinism self-test: same seeds under other hash seeds
+  HASHSEEDS = [str(int(h) + 100 * _shift) for h in HASHSEEDS]
 
 
 def load_known():
